@@ -40,31 +40,32 @@ ASSUMPTIONS = [
     "stored count-down columns are compared with their documented meaning as an observation only",
 ]
 BUDGET = {
-    "quick": dict(cases=160, shards=4, timeout=600),
-    "thorough": dict(cases=2600, shards=16, timeout=3000, time=480),
+    "quick": dict(cases=130, shards=4, timeout=600),
+    "thorough": dict(cases=1000, shards=16, timeout=3000, time=540),
 }
 CLASSES = G.SHAPES + ["general_factor", "no_state_dir", "user_entries", "budget_only", "es_only", "rlr_only"]
 FLOORS = {
     "quick": {
-        "events": {"update_for_epoch": 8000, "continue_training": 8000, "controller_rebuilt": 3000,
-                   "assert:decision": 2000, "assert:lr-rule": 2000, "assert:lr-in-optimizer": 2000,
-                   "assert:restart-decision": 6000, "assert:restart-lr": 6000, "assert:restart-csv": 1200,
-                   "assert:restart-history": 1500, "assert:info-stored": 2000,
-                   "invariant:countdowns": 10000, "invariant:lr-positive": 10000,
-                   "invariant:contiguous": 10000},
-        "classes": dict({c: 25 for c in CLASSES}, early_stop=40, budget_stop=40, lr_reduced=100,
-                        negligible_change=3, cooldown_skip=20, es_fail_then_reset=30,
-                        exact_threshold_hit=20, restart_full=300, restart_controller=300,
-                        typed_entries=60, lr_general=25, two_groups=100),
-        "stats": {"countdowns_match_reference": 2000},
-        "distinct": 350,
+        "events": {"update_for_epoch": 5000, "continue_training": 8000, "controller_rebuilt": 3000,
+                   "assert:decision": 1000, "assert:lr-rule": 1000, "assert:lr-in-optimizer": 1000,
+                   "assert:restart-decision": 4000, "assert:restart-lr": 4000, "assert:restart-csv": 1000,
+                   "assert:restart-history": 1500, "assert:info-stored": 4000, "assert:info-reloaded": 4000,
+                   "assert:restart-state-loaded": 1200,
+                   "invariant:countdowns": 50000, "invariant:lr-positive": 50000,
+                   "invariant:contiguous": 50000},
+        "classes": dict({c: 25 for c in CLASSES}, early_stop=80, budget_stop=70, lr_reduced=60,
+                        negligible_change=15, cooldown_skip=40, es_fail_then_reset=15,
+                        exact_threshold_hit=60, restart_full=300, restart_controller=300,
+                        typed_entries=150, lr_general=25, two_groups=120),
+        "stats": {"countdowns_match_reference": 1000},
+        "distinct": 300,
     },
     "thorough": {
-        "events": {"update_for_epoch": 300000, "controller_rebuilt": 100000, "assert:restart-csv": 50000,
-                   "invariant:countdowns": 400000},
-        "classes": dict({c: 1000 for c in CLASSES}, early_stop=2000, budget_stop=2000, lr_reduced=5000,
-                        negligible_change=100, all_subsets=1500),
-        "distinct": 20000,
+        "events": {"update_for_epoch": 150000, "controller_rebuilt": 60000, "assert:restart-csv": 30000,
+                   "invariant:countdowns": 300000},
+        "classes": dict({c: 400 for c in CLASSES}, early_stop=1000, budget_stop=1000, lr_reduced=1000,
+                        negligible_change=150, all_subsets=600, lr_general=400),
+        "distinct": 6000,
     },
 }
 EXHAUSTIVE = {"thorough": False}
@@ -212,8 +213,12 @@ def generate(rng, tier, i):
     elif cls == "rlr_only":
         force = {"es_threshold": 0.0, "rlr_threshold": rng.choice(G.THRESHOLDS[1:]), "num_epochs": None,
                  "rlr_burnin": rng.randint(0, 1)}
+    if cls == "general_factor":
+        force = {"rlr_threshold": rng.choice([1.0, 2.0]), "rlr_patience": rng.randint(1, 2),
+                 "rlr_burnin": rng.randint(0, 1)}
     hist = G.gen_history(rng, n_max, exact_lr=(cls != "general_factor"),
-                         shape=cls if cls in G.SHAPES else None, force=force)
+                         shape=cls if cls in G.SHAPES else None, force=force,
+                         want_general=(cls == "general_factor"))
     if cls == "user_entries" and not hist["entries"]:
         while not hist["entries"]:
             hist["entries"] = G.gen_entries(rng, n_max)
@@ -331,7 +336,7 @@ def execute(case, mon):
     if case["entries"]:
         mon.cls("typed_entries")
 
-    root = tempfile.mkdtemp(prefix="vmon-c15-")
+    root = G.scratch_dir("vmon-c15-")
     try:
         _INV["n"].clear()
         with warnings.catch_warnings():
@@ -396,6 +401,8 @@ def _judge(case, mon, T, root, steps, rel, exact):
             det = dict(epoch=e, plan=plan, val=case["val"][:e], cfg=cfg)
             mon.check(r["cont"] == ra["cont"] and r["ct"] == ra["ct"], "restart-decision",
                       observed=[r["cont"], r["ct"]], expected=[ra["cont"], ra["ct"]], **det)
+            for x, y in zip(r["lrs"] + [r["info"]["lr"]], ra["lrs"] + [ra["info"]["lr"]]):
+                mon.dev("restart-lr-relative(%s)" % case["lr_class"], abs(x - y) / abs(y), rel)
             mon.check(all(G.same_float(x, y, rel) for x, y in zip(r["lrs"], ra["lrs"]))
                       and G.same_float(r["info"]["lr"], ra["info"]["lr"], rel), "restart-lr",
                       observed=r["lrs"] + [r["info"]["lr"]], expected=ra["lrs"] + [ra["info"]["lr"]], **det)
